@@ -1,0 +1,22 @@
+//go:build verif
+
+package mdicons
+
+import (
+	"fmt"
+	"sort"
+)
+
+// VerifSharedHash is a verification hook (build tag "verif", add-only): a
+// canonical rendering of this package's package-level variables.
+func VerifSharedHash() string {
+	var ks []string
+	for k, v := range skippedPaths {
+		ks = append(ks, "s:"+k+"="+v)
+	}
+	for k, v := range acronyms {
+		ks = append(ks, "a:"+k+"="+v)
+	}
+	sort.Strings(ks)
+	return fmt.Sprint(ks)
+}
